@@ -16,14 +16,14 @@ Proof. exact isalive_truth. Qed.
 Print Assumptions C10_isalive_truth.
 
 (** no operation sequence ever signals a pid whose process is not alive, and none fails with "no child process" *)
-Theorem C10_kills_only_alive : forall ops w, Inv w -> Forall wf_op ops -> forallb no_close ops = true ->
+Theorem C10_kills_only_alive : forall ops w, Inv w -> Forall wf_op ops ->
   Forall (fun k => snd k = true) (kills (fold_left (fun w o => snd (lstep w o)) ops w)).
-Proof. exact kills_only_alive. Qed.
+Proof. exact kills_only_alive_all. Qed.
 Print Assumptions C10_kills_only_alive.
 
-Theorem C10_no_echild : forall w o, Inv w -> wf_op o -> no_close o = true ->
+Theorem C10_no_echild : forall w o, Inv w -> wf_op o ->
   Inv (snd (lstep w o)) /\ fst (lstep w o) <> RaisePty 1.
-Proof. exact lstep_inv. Qed.
+Proof. exact lstep_inv_all. Qed.
 Print Assumptions C10_no_echild.
 
 (** terminate(force=True) leaves the child dead and reaped whether it ignores SIGHUP/SIGINT, is stopped, or has exited *)
@@ -34,6 +34,43 @@ Theorem C10_terminate_force_kills : forall w, Inv w ->
   end.
 Proof. exact terminate_force_kills. Qed.
 Print Assumptions C10_terminate_force_kills.
+
+(** close(force=True) leaves the child dead and reaped, the object terminated and closed with an invalid descriptor number,
+    the descriptor released exactly once - whatever the child ignores, stopped or not, already exited or not *)
+Theorem C10_close_force : forall w, Inv w ->
+  match close w true with
+  | (RNone, w') => closed_state w'
+  | _ => False
+  end.
+Proof. exact close_force. Qed.
+Print Assumptions C10_close_force.
+
+(** close(force=False) succeeds in the same way or raises - and then the descriptor has been released and its number
+    invalidated all the same (no stale handle) *)
+Theorem C10_close_polite : forall w, Inv w ->
+  match close w false with
+  | (RNone, w') => closed_state w'
+  | (RaisePty n, w') => n = 2%nat /\ Inv w' /\ s_fd_valid (sp w') = false /\ t_fd_open (pt w') = false
+  | _ => False
+  end.
+Proof. exact close_polite. Qed.
+Print Assumptions C10_close_polite.
+
+(** close() is idempotent: on a closed object it signals nobody, releases nothing, changes no attribute *)
+Theorem C10_close_idempotent : forall w force, closed_state w ->
+  match close w force with
+  | (RNone, w') => closed_state w' /\ kills w' = kills w /\ ch w' = ch w /\ fd_closes w' = fd_closes w /\
+                   s_status (sp w') = s_status (sp w) /\ s_exit (sp w') = s_exit (sp w) /\ s_sig (sp w') = s_sig (sp w)
+  | _ => False
+  end.
+Proof. exact close_idempotent. Qed.
+Print Assumptions C10_close_idempotent.
+
+(** over every operation sequence the descriptor is released at most once *)
+Theorem C10_fd_released_at_most_once : forall ops w, Inv w -> Forall wf_op ops ->
+  (fd_closes (fold_left (fun w o => snd (lstep w o)) ops w) <= 1)%nat.
+Proof. exact fd_released_at_most_once. Qed.
+Print Assumptions C10_fd_released_at_most_once.
 
 Example C10_stubborn_stopped_child :
   fst (terminate (world0 true true true) true) = RBool true.
